@@ -14,19 +14,19 @@ Lemma below_root fuel ns roots h : In h roots -> below_fuel fuel ns roots h = tr
 Proof. intro H. destruct fuel; cbn; apply memz_In in H; now rewrite H. Qed.
 
 Section Delete.
-  Variables (ns : list el) (t : Z).
-  Let inT := fun n => below ns [t] (e_h n).
+  Variables (ns : list el) (ts : list Z).
+  Let inT := fun n => below ns ts (e_h n).
   Let tids := ids_of (filter inT ns).
   Let links := map e_h (filter (fun n => negb (inT n) && match e_link n with Some u => memz u tids | None => false end) ns).
   Let gone := fun n => inT n || below ns links (e_h n).
   Let purge := fun r => if ra_exposed r then mkRef (ra_name r) true (filter (fun u => negb (memz u tids)) (ra_targets r)) else r.
   Let purged := fun n => mkEl (e_h n) (e_par n) (e_ids n) (map purge (e_refs n)) (e_link n).
 
-  Lemma delete_unfold : delete ns t = mkOut (map purged (filter (fun n => negb (gone n)) ns)) (map e_h (filter gone ns)).
+  Lemma delete_unfold : delete_many ns ts = mkOut (map purged (filter (fun n => negb (gone n)) ns)) (map e_h (filter gone ns)).
   Proof. reflexivity. Qed.
 
   (* survivors are exactly the images of the nodes that are not gone *)
-  Lemma in_result n' : In n' (o_nodes (delete ns t)) <-> exists n, In n ns /\ gone n = false /\ n' = purged n.
+  Lemma in_result n' : In n' (o_nodes (delete_many ns ts)) <-> exists n, In n ns /\ gone n = false /\ n' = purged n.
   Proof.
     rewrite delete_unfold. cbn [o_nodes]. rewrite in_map_iff. split.
     - intros [n [E Hn]]. apply filter_In in Hn as [Hn Hg]. apply negb_true_iff in Hg. eauto.
@@ -34,7 +34,7 @@ Section Delete.
   Qed.
 
   (* 1. no exposed reference into the deleted subtree survives *)
-  Theorem no_exposed_reference_left n' : In n' (o_nodes (delete ns t)) ->
+  Theorem no_exposed_reference_left n' : In n' (o_nodes (delete_many ns ts)) ->
     (forall r, In r (e_refs n') -> ra_exposed r = true -> forall u, In u (ra_targets r) -> ~ In u tids) /\
     (forall u, e_link n' = Some u -> ~ In u tids).
   Proof.
@@ -51,12 +51,12 @@ Section Delete.
   Qed.
 
   (* 2. nothing of the deleted subtree survives; removed and surviving handles partition the model *)
-  Theorem deleted_subtree_gone n' : In n' (o_nodes (delete ns t)) -> below ns [t] (e_h n') = false.
+  Theorem deleted_subtree_gone n' : In n' (o_nodes (delete_many ns ts)) -> below ns ts (e_h n') = false.
   Proof.
     intro H. apply in_result in H as [n [Hn [Hg ->]]]. cbn [purged e_h]. unfold gone in Hg. now apply orb_false_iff in Hg as [HT _].
   Qed.
   Theorem partition_handles h : In h (map e_h ns) <->
-    In h (o_removed (delete ns t)) \/ In h (map e_h (o_nodes (delete ns t))).
+    In h (o_removed (delete_many ns ts)) \/ In h (map e_h (o_nodes (delete_many ns ts))).
   Proof.
     rewrite delete_unfold. cbn [o_nodes o_removed]. rewrite !in_map_iff. split.
     - intros [n [E Hn]]. destruct (gone n) eqn:G.
@@ -71,7 +71,7 @@ Section Delete.
         reference attributes; non-exposed references are untouched; exposed ones lose exactly the deleted ids,
         the order of the survivors kept; the document order of survivors is kept *)
   Theorem frame n : In n ns -> gone n = false ->
-    exists n', In n' (o_nodes (delete ns t)) /\ e_h n' = e_h n /\ e_par n' = e_par n /\ e_ids n' = e_ids n /\ e_link n' = e_link n /\
+    exists n', In n' (o_nodes (delete_many ns ts)) /\ e_h n' = e_h n /\ e_par n' = e_par n /\ e_ids n' = e_ids n /\ e_link n' = e_link n /\
       map ra_name (e_refs n') = map ra_name (e_refs n) /\
       Forall2 (fun r' r => if ra_exposed r then ra_targets r' = filter (fun u => negb (memz u tids)) (ra_targets r) else r' = r)
               (e_refs n') (e_refs n).
@@ -80,7 +80,7 @@ Section Delete.
     - rewrite map_map. apply map_ext. intro r. unfold purge. destruct (ra_exposed r); reflexivity.
     - induction (e_refs n) as [|r rs IH]; [constructor|]. cbn [map]. constructor; [|exact IH]. unfold purge. destruct (ra_exposed r); reflexivity.
   Qed.
-  Theorem order_kept : map e_h (o_nodes (delete ns t)) = map e_h (filter (fun n => negb (gone n)) ns).
+  Theorem order_kept : map e_h (o_nodes (delete_many ns ts)) = map e_h (filter (fun n => negb (gone n)) ns).
   Proof. rewrite delete_unfold. cbn [o_nodes]. rewrite map_map. reflexivity. Qed.
 End Delete.
 
@@ -95,3 +95,10 @@ Proof.
   apply existsb_exists in E as [n [Hn H]]. apply andb_true_iff in H as [H _]. apply andb_true_iff in H as [H1 H2].
   apply negb_true_iff in H1. eauto.
 Qed.
+
+(* the once-per-(holder, relation) purge leaves an exposed reference to a deleted object behind *)
+Theorem purge_once_refuted :
+  let ns := [mkEl 1 None [10] [] None; mkEl 2 (Some 1) [20] [] None; mkEl 3 None [30] [mkRef 7 true [10; 20]] None] in
+  o_nodes (delete_many_once ns [1]) = [mkEl 3 None [30] [mkRef 7 true [20]] None] /\
+  o_nodes (delete_many ns [1]) = [mkEl 3 None [30] [mkRef 7 true []] None].
+Proof. split; reflexivity. Qed.
